@@ -103,6 +103,16 @@ class C09(PropBase):
             lines.append(rng.choice([b"FILE 9 x", b"FUNC 1 1 0", b"x", b"STACK CFI INIT 1 1 .cfa: $esp", b"PUBLIC 1 0 abc", b"\r"]))
             data = G.join(rng, lines, final_nl=False)
             add("drop-trunc", data, rng.choice([[], [], ["163840*40"], ["200000*40"], ["81920*40"], G.sched_random(rng, len(data), style=2)]))
+        # 8. every free-text field of every record kind (and every tolerated-malformed STACK WIN shape) x long texts with
+        #    multi-byte characters at every offset class around 64 / 256 / 4096 bytes
+        for data in G.free_text_files():
+            add("free-text", data)
+        # 9. complete lines ending exactly at capacity/2 of a full window (+-1), then a line that does not fit; all records valid
+        for data, sched, label in G.aligned_files():
+            add("aligned", data, sched, tag="ok")
+        # 10. known finding F-C09a: the over-long line is a group header with sub-lines
+        for data in G.orphan_files(rng, 6 if quick else 40):
+            add("orphan", data, rng.choice([[], ["65536*20"]]), tag="orphan")
         return cases, dist, False
 
     def impl_cmd(self, exe, profile):
@@ -122,6 +132,11 @@ class C09(PropBase):
         if f.get("cbok") != "1":
             return "callback bytes are not a prefix of the input"
         a = G.analyse(case)
+        if a["tag"] == "ok" and f["R"] != "OK":
+            return "every line of this input is a valid record (over-long ones are to be dropped), yet the parse fails with " + f["R"]
+        if a["tag"] == "orphan" and f["R"] != "OK":
+            return ("the only corrupt line is an over-long FUNC / STACK CFI INIT header; it is dropped, but its sub-lines then "
+                    "make the parse fail with " + f["R"])
         lens = a["line_lens"] + ([a["tail"]] if a["tail"] else [])
         fuzzy = [n for n in lens if G.HALF <= n < G.MAXCAP]
         if f.get("D", "-") != "-" and not fuzzy:
